@@ -415,10 +415,12 @@ class Point(HyperbolicObject, projective.Point):
             orientation-preserving.
 
         """
-        normed = np.expand_dims(
-            utils.normalize(self.proj_data, self.minkowski),
-            axis=-2
-        )
+        normed = utils.normalize(self.proj_data, self.minkowski)
+
+        # the result should not depend on the sign of the
+        # homogeneous coordinates representing this point
+        normed = np.expand_dims(normed * np.sign(normed[..., :1]),
+                                axis=-2)
         isom = utils.find_isometry(self.minkowski, normed,
                                    force_oriented)
 
@@ -440,7 +442,11 @@ class Point(HyperbolicObject, projective.Point):
             towards `other`.
 
         """
-        diff = other.proj_data - self.proj_data
+        # use representatives lying on the same sheet of the hyperboloid
+        products = utils.apply_bilinear(self.proj_data, other.proj_data,
+                                        self.minkowski)
+        same_sheet = -1 * np.sign(np.expand_dims(products, axis=-1))
+        diff = same_sheet * other.proj_data - self.proj_data
         return TangentVector(self, diff).normalized()
 
     def get_origin(dimension, shape=(), **kwargs):
@@ -1269,6 +1275,10 @@ class TangentVector(PointPair):
 
         """
         normed = utils.normalize(self.aux_data, self.minkowski)
+
+        # (x, v) and (-x, -v) represent the same tangent vector
+        normed = normed * np.sign(normed[..., :1, :1])
+
         isom = utils.find_isometry(self.minkowski, normed,
                                    force_oriented)
 
